@@ -130,6 +130,13 @@ type Link struct {
 	OnSwitch func(to int) // called with the lock held whenever the baton moves
 }
 
+// HorizonAbort is raised in a party that exceeded the operation horizon (Link.Horizon is set).
+type HorizonAbort struct{}
+
+func (HorizonAbort) String() string {
+	return "operation horizon of the link reached: the station keeps calling Read/Write without end"
+}
+
 var errReset = &net.OpError{Op: "read", Net: "link", Err: syscall.ECONNRESET}
 
 func New(p Plan) *Link {
@@ -198,7 +205,9 @@ func (l *Link) ev(party int, op string, n int, err error) {
 	if err != nil {
 		e.Err = err.Error()
 	}
-	l.Events = append(l.Events, e)
+	if len(l.Events) < 200000 { // enough to read any replay; a spinning station must not exhaust memory
+		l.Events = append(l.Events, e)
+	}
 }
 
 type Conn struct {
@@ -225,9 +234,10 @@ func (c *Conn) Read(p []byte) (int, error) {
 	for {
 		l.ops++
 		if l.ops > l.plan.MaxOps {
+			// a station that keeps calling Read without end (a spin on the link's answers) cannot be
+			// stopped by an answer: it is stopped by a panic the session runners recognise
 			l.Horizon = true
-			l.ev(c.i, "R", 0, io.EOF)
-			return 0, io.EOF
+			panic(HorizonAbort{})
 		}
 		if c.closed {
 			l.ev(c.i, "R", 0, net.ErrClosed)
@@ -310,6 +320,10 @@ func (c *Conn) Write(p []byte) (int, error) {
 	defer l.mu.Unlock()
 	s := l.dir[c.i]
 	l.ops++
+	if l.ops > l.plan.MaxOps {
+		l.Horizon = true
+		panic(HorizonAbort{})
+	}
 	if c.closed {
 		l.ev(c.i, "W", 0, net.ErrClosed)
 		return 0, net.ErrClosed
